@@ -45,6 +45,7 @@ import (
 func TestVerif(t *testing.T) {
 	drv.Main(t,
 		drv.Wrap(drv.Engine[acCase]{Property: "C06", Name: "cluster", Gen: genAC, Run: func(t *testing.T, c acCase, st *drv.Stats) *drv.Failure { return runAC(t, c, st, "C06") }, BatchChecks: 4, GCEvery: 1}),
+		drv.Wrap(drv.Engine[acCase]{Property: "C11", Name: "cluster", Gen: genAC, Run: func(t *testing.T, c acCase, st *drv.Stats) *drv.Failure { return runAC(t, c, st, "C11") }, BatchChecks: 4, GCEvery: 1}),
 		drv.Wrap(drv.Engine[acCase]{Property: "C13", Name: "cluster", Gen: genAC, Run: func(t *testing.T, c acCase, st *drv.Stats) *drv.Failure { return runAC(t, c, st, "C13") }, BatchChecks: 4, GCEvery: 1}),
 	)
 }
@@ -87,7 +88,7 @@ func genAC(t *rapid.T) acCase {
 		c.DelayMS = rapid.SampledFrom([]int{0, 1, 20, 100}).Draw(t, "delay")
 	}
 	keys := []string{"a", "b", "c"}[:rapid.IntRange(1, 3).Draw(t, "nkeys")]
-	restarts := 0
+	restarts, joins := 0, 0
 	if rapid.IntRange(0, 3).Draw(t, "stall") == 0 {
 		// a stalled co-subscriber and enough changes to fill its buffer
 		c.Stall = rapid.IntRange(1, c.Nodes).Draw(t, "stallnode")
@@ -117,6 +118,10 @@ func genAC(t *rapid.T) acCase {
 			}
 		case k < 13:
 			c.Events = append(c.Events, acEvent{K: "heal"})
+		case k == 13 && joins < 2:
+			// a new node joins through one member (possibly one that was restarted)
+			c.Events = append(c.Events, acEvent{K: "join", Node: rapid.IntRange(1, c.Nodes).Draw(t, "jvia")})
+			joins++
 		case restarts < 2:
 			c.Events = append(c.Events, acEvent{K: "restart", Node: rapid.IntRange(1, c.Nodes).Draw(t, "rnode")})
 			restarts++
@@ -146,7 +151,10 @@ type acNet struct {
 	offered map[int]map[string]int64
 	// feedback[node][key@version] = feedback messages delivered to the node for it
 	feedback map[int]map[string]int
-	msgs     map[string]int
+	// sent[node][key] = highest version of key the node itself put into a kv gossip
+	// message (request or reply): it propagated that version
+	sent map[int]map[string]int64
+	msgs map[string]int
 	// down: nodes that are closing, closed or reopening; what reaches them meanwhile
 	// (the transport still accepts, the pipeline no longer applies) does not count as
 	// having been offered. epoch[node] changes with every stop.
@@ -228,6 +236,21 @@ func (n *acNet) offer(node int, epoch int, ops []ikv.Operation) {
 	}
 }
 
+func (n *acNet) sentBy(node int, ops []ikv.Operation) {
+	n.mu.Lock()
+	defer n.mu.Unlock()
+	m := n.sent[node]
+	if m == nil {
+		m = map[string]int64{}
+		n.sent[node] = m
+	}
+	for _, op := range ops {
+		if v := int64(op.Version); v > m[string(op.Key)] {
+			m[string(op.Key)] = v
+		}
+	}
+}
+
 func acOps(ops []ikv.Operation) string {
 	var b strings.Builder
 	for _, op := range ops {
@@ -296,10 +319,12 @@ func (t *acTransport) TxClient() ikv.TxTransportClient {
 	me := t.net.idOf[t.src]
 	return &acClient[ikv.TxRequest, ikv.TxRequest]{UnaryClient: t.Transport.TxClient(), net: t.net, src: t.src, kind: "kv_gossip",
 		req: func(dst address.Address, rq ikv.TxRequest, ep int) {
+			t.net.sentBy(me, rq.Operations)
 			t.net.offer(t.net.idOf[dst], ep, rq.Operations)
 			t.net.note("ops %d->%d:%s", me, t.net.idOf[dst], acOps(rq.Operations))
 		},
 		res: func(dst address.Address, rs ikv.TxRequest, ep int) {
+			t.net.sentBy(t.net.idOf[dst], rs.Operations)
 			t.net.offer(me, ep, rs.Operations)
 			t.net.note("ops-reply %d->%d:%s", t.net.idOf[dst], me, acOps(rs.Operations))
 		}}
@@ -406,6 +431,12 @@ func acClassifyStall(c acCase, net *acNet, nodes []*acNode, keySet map[string]bo
 			early, restarted := false, true
 			for _, h := range holders {
 				if net.feedback[h][key+"@"+strconv.FormatInt(vmax, 10)] >= ikv.DefaultConfig.RecoveryThreshold {
+					continue
+				}
+				// a holder that never put the version into a gossip message of its own
+				// never propagated it (it pulled it at start-up, or had it already when it
+				// was offered): it had nothing to stop
+				if net.sent[h][key] < vmax {
 					continue
 				}
 				early = true
@@ -558,7 +589,7 @@ func runACBody(t *testing.T, c acCase, st *drv.Stats, prop string, failp **drv.F
 		start := time.Now()
 		defer func() { *virtual = time.Since(start) }()
 		net := &acNet{rng: rand.New(rand.NewSource(c.NetSeed)), c: c, blocked: map[[2]string]bool{}, fired: map[string]int{}, addrOf: map[int]address.Address{},
-			idOf: map[address.Address]int{}, offered: map[int]map[string]int64{}, feedback: map[int]map[string]int{}, msgs: map[string]int{}, down: map[int]bool{}, epoch: map[int]int{}}
+			idOf: map[address.Address]int{}, offered: map[int]map[string]int64{}, feedback: map[int]map[string]int{}, msgs: map[string]int{}, down: map[int]bool{}, epoch: map[int]int{}, sent: map[int]map[string]int64{}}
 		mnet := mock.NewNetwork()
 		nodes := make([]*acNode, c.Nodes+1)
 		var peers []address.Address
@@ -839,6 +870,34 @@ func runACBody(t *testing.T, c acCase, st *drv.Stats, prop string, failp **drv.F
 				net.mu.Lock()
 				net.blocked = map[[2]string]bool{}
 				net.mu.Unlock()
+			case "join":
+				via := nodes[ev.Node]
+				if via.db == nil || len(nodes) > 5 {
+					continue
+				}
+				id := len(nodes)
+				nd := &acNode{id: id, addr: address.Newf("localhost:%d", 10000+id), eng: memkv.New(), maxVer: map[string]int64{}, stored: map[string]bool{}}
+				net.mu.Lock()
+				net.addrOf[id] = nd.addr
+				net.idOf[nd.addr] = id
+				net.mu.Unlock()
+				all := peers
+				peers = []address.Address{via.addr}
+				err := openNode(nd, false)
+				peers = all
+				if err != nil {
+					_ = nd.eng.Close()
+					st.Probe("join_failed_under_faults")
+					continue
+				}
+				peers = append(peers, nd.addr)
+				nodes = append(nodes, nd)
+				// it attached its subscribers after start-up recovery, like a restarted node
+				nd.restarted = true
+				st.Probe("node_joined_during_run")
+				if via.restarted {
+					st.Probe("node_joined_through_restarted_member")
+				}
 			case "restart":
 				nd := nodes[ev.Node]
 				if nd.db == nil {
@@ -895,6 +954,32 @@ func runACBody(t *testing.T, c acCase, st *drv.Stats, prop string, failp **drv.F
 				net.mu.Unlock()
 			}
 		}
+		// C11 at the level of whole nodes: every node has its own key and the cluster's key
+		{
+			seenKey := map[aspen.NodeKey]int{}
+			ck := nodes[1].db.Cluster.Key()
+			for _, nd := range nodes[1:] {
+				hk := nd.db.Cluster.HostKey()
+				if prev, dup := seenKey[hk]; dup {
+					fail = drv.Failf("duplicate-node-key", "whole-nodes", "nodes #%d and #%d both hold node key %d", prev, nd.id, hk)
+					return
+				}
+				seenKey[hk] = nd.id
+				if got := nd.db.Cluster.Key(); got != ck || got.String() == "00000000-0000-0000-0000-000000000000" {
+					fail = drv.Failf("wrong-cluster-key", "whole-nodes", "node #%d (key %d) holds cluster key %v, node #1 holds %v", nd.id, hk, got, ck)
+					return
+				}
+			}
+		}
+		if prop == "C11" {
+			// the key-value oracles belong to C06/C13
+			var sh []string
+			for _, ev := range c.Events {
+				sh = append(sh, ev.K[:2]+strconv.Itoa(ev.Node))
+			}
+			st.Case(drv.Hash64(strconv.Itoa(c.Nodes), strconv.Itoa(c.DropPct), strings.Join(sh, ",")), len(nodes)-1 > c.Nodes)
+			return
+		}
 		// bounded convergence: once faults stop every node holds the leaseholder's latest
 		// write for each key within the budget
 		budget := 20 * time.Second
@@ -948,6 +1033,14 @@ func runACBody(t *testing.T, c acCase, st *drv.Stats, prop string, failp **drv.F
 					}
 					why += fmt.Sprintf("; node %d key %s: value %s digest(present=%v version=%d leaseholder=%d variant=%d)", nd.id, key, val, ok, d.Version, d.Leaseholder, d.Variant)
 				}
+			}
+			for _, nd := range nodes[1:] {
+				var ks []int
+				for k := range nd.db.Cluster.Nodes() {
+					ks = append(ks, int(k))
+				}
+				sort.Ints(ks)
+				why += fmt.Sprintf("; node #%d (key %d) knows members %v", nd.id, nd.db.Cluster.HostKey(), ks)
 			}
 			fail = drv.Failf("kv-no-convergence", sig, "%v of virtual time after faults stopped and partitions healed the nodes still disagree: %s", budget, why)
 			return
